@@ -34,8 +34,10 @@
 (*                    index k)                                             *)
 (*   <<"bin", op, l, r>>          l op r,  op \in Ops                      *)
 (*   <<"fn", f, <<args>>>>        pp.ad.Function(f)(args)                  *)
-(*   <<"shift", mode, e>>         e.previous_timestep() ("time") or        *)
-(*                                e.previous_iteration() ("iter")          *)
+(*   <<"shift", mode, e>>         e.previous_timestep(steps = k)  for mode *)
+(*                                "time" (k = 1), "time2" (k = 2), or      *)
+(*                                e.previous_iteration(steps = k)  for     *)
+(*                                "iter" (k = 1), "iter2" (k = 2)          *)
 (* Value kinds <<tag, p, q>>:  F float | V n  1-d ndarray | A n  AdArray | *)
 (*   M m n sparse matrix | S r d ArraySlicer (d -> r) | L r d list of      *)
 (*   slicers | O erratic numpy object array | E error.                     *)
@@ -142,6 +144,9 @@ Leaf(nm, tsi, iti) == <<"leaf", nm, tsi, iti>>
 Bin(op, l, r) == <<"bin", op, l, r>>
 Fn(f, args) == <<"fn", f, args>>
 Shift(mode, e) == <<"shift", mode, e>>
+ShiftModes == {"time", "time2", "iter", "iter2"}
+DT(mode) == CASE mode = "time" -> 1 [] mode = "time2" -> 2 [] OTHER -> 0      \* steps back in time
+DI(mode) == CASE mode = "iter" -> 1 [] mode = "iter2" -> 2 [] OTHER -> 0      \* steps back in the iteration
 
 RECURSIVE Depth(_)
 Depth(e) == CASE e[1] = "leaf" -> 0
@@ -184,7 +189,7 @@ Direct(e, dt, di, mode) ==
              t |-> <<"call", e[2], [j \in 1..Len(e[3]) |-> as[j].t]>>]
     [] OTHER ->   \* shift
          IF IsRaw(e[3]) THEN [k |-> KE, t |-> <<"leaf", "?", 0, 0>>]
-         ELSE IF e[2] = "time" THEN Direct(e[3], dt + 1, di, mode) ELSE Direct(e[3], dt, di + 1, mode)
+         ELSE Direct(e[3], dt + DT(e[2]), di + DI(e[2]), mode)
 
 \* numerical range guard: at most two of {exp, **} on any root-to-leaf path (keeps doubles finite)
 RECURSIVE Hot(_)
@@ -211,7 +216,7 @@ DirectProg(e, dt, di) ==
              how == IF k0[1] = "V" /\ k1[1] = "A" THEN "reflected" ELSE IF k0[1] = "L" THEN "sumlist" ELSE "infix"
          IN <<"bin", e[2], how, DirectProg(e[3], dt, di), DirectProg(e[4], dt, di)>>
     [] e[1] = "fn" -> <<"call", e[2], [j \in 1..Len(e[3]) |-> DirectProg(e[3][j], dt, di)]>>
-    [] OTHER -> IF e[2] = "time" THEN DirectProg(e[3], dt + 1, di) ELSE DirectProg(e[3], dt, di + 1)
+    [] OTHER -> DirectProg(e[3], dt + DT(e[2]), di + DI(e[2]))
 
 \* time-dependent leaves of e with their resolved state: set of <<name, tsi, iti>>
 RECURSIVE TDLeaves(_, _, _)
@@ -221,7 +226,7 @@ TDLeaves(e, dt, di) ==
                         IN IF TimeDep(c) THEN {<<e[2], s[2], s[3]>>} ELSE {}
     [] e[1] = "bin" -> TDLeaves(e[3], dt, di) \cup TDLeaves(e[4], dt, di)
     [] e[1] = "fn" -> UNION {TDLeaves(e[3][j], dt, di) : j \in 1..Len(e[3])}
-    [] OTHER -> IF e[2] = "time" THEN TDLeaves(e[3], dt + 1, di) ELSE TDLeaves(e[3], dt, di + 1)
+    [] OTHER -> TDLeaves(e[3], dt + DT(e[2]), di + DI(e[2]))
 \* current variables (the unknowns the derivative is taken with respect to)
 CurVars(e, dt, di) == {x \in TDLeaves(e, dt, di) : LT[x[1]].cls \in VarClasses /\ x[2] < 0 /\ x[3] < 0}
 IsPrev(e, dt, di) == TDLeaves(e, dt, di) # {} /\ \A x \in TDLeaves(e, dt, di) : x[2] >= 0 \/ x[3] >= 0
@@ -232,7 +237,7 @@ Resolve(e, dt, di) ==
   CASE e[1] = "leaf" -> LET s == LeafState(LT[e[2]].cls, e[3], e[4], dt, di) IN Leaf(e[2], s[2], s[3])
     [] e[1] = "bin" -> Bin(e[2], Resolve(e[3], dt, di), Resolve(e[4], dt, di))
     [] e[1] = "fn" -> Fn(e[2], [j \in 1..Len(e[3]) |-> Resolve(e[3][j], dt, di)])
-    [] OTHER -> IF e[2] = "time" THEN Resolve(e[3], dt + 1, di) ELSE Resolve(e[3], dt, di + 1)
+    [] OTHER -> Resolve(e[3], dt + DT(e[2]), di + DI(e[2]))
 
 \* maximal Operator-valued sub-expressions taken at a previous time step / iterate (resolved), in left-to-right order
 RECURSIVE PrevSubs(_, _, _)
@@ -243,7 +248,7 @@ PrevSubs(e, dt, di) ==
          [] e[1] = "bin" -> PrevSubs(e[3], dt, di) \o PrevSubs(e[4], dt, di)
          [] e[1] = "fn" -> IF Len(e[3]) = 1 THEN PrevSubs(e[3][1], dt, di)
                            ELSE PrevSubs(e[3][1], dt, di) \o PrevSubs(e[3][2], dt, di)
-         [] OTHER -> IF e[2] = "time" THEN PrevSubs(e[3], dt + 1, di) ELSE PrevSubs(e[3], dt, di + 1)
+         [] OTHER -> PrevSubs(e[3], dt + DT(e[2]), di + DI(e[2]))
 
 \* ---------------------------------------------------------------- (i) Python's binary operator protocol
 FwdName(op) == CASE op = "+" -> "__add__" [] op = "-" -> "__sub__" [] op = "*" -> "__mul__"
@@ -297,12 +302,12 @@ WrapOther(b) ==
 RECURSIVE ShiftT(_, _)
 ShiftT(b, mode) ==
   CASE b[1] = "leaf" ->
-         IF mode = "time" /\ TimeDep(b[2]) THEN
+         IF DT(mode) > 0 /\ TimeDep(b[2]) THEN
             (IF Iterative(b[2]) /\ b[5] >= 0 THEN BErr("ValueError: previous time step of a previous iterate")
-             ELSE <<"leaf", b[2], b[3], b[4] + 1, b[5]>>)
-         ELSE IF mode = "iter" /\ Iterative(b[2]) THEN
+             ELSE <<"leaf", b[2], b[3], b[4] + DT(mode), b[5]>>)
+         ELSE IF DI(mode) > 0 /\ Iterative(b[2]) THEN
             (IF b[4] >= 0 THEN BErr("ValueError: previous iterate of a previous time step")
-             ELSE <<"leaf", b[2], b[3], b[4], b[5] + 1>>)
+             ELSE <<"leaf", b[2], b[3], b[4], b[5] + DI(mode)>>)
          ELSE b
     [] b[1] = "node" -> LET c0 == ShiftT(b[3], mode)
                             c1 == ShiftT(b[4], mode)
